@@ -45,9 +45,19 @@ def _check_find(case):
 
 
 def _check_nonentries(case):
-    ivs, hi = case
+    ivs, hi = case[0], case[1]
     E = [(a, b, "x") for a, b in ivs]
-    t = IT("t", E, 0, hi)
+    if len(case) > 2:    # the span arguments as the caller wrote them: omitted, None, or a minimum at / below the first start
+        form, lo = case[2], case[3]
+        if form == "omitted":
+            t = IT("t", E)
+        elif form == "omitted-min":
+            t = IT("t", E, maxT=hi)
+        else:
+            t = IT("t", E, lo, hi)
+        hi = t.maxTimestamp
+    else:
+        t = IT("t", E, 0, hi)
     viols = []
     st, r, _ = call(t.getNonEntries)
     exp, cur = [], 0.0
@@ -356,6 +366,15 @@ def parts(tier):
             if s:
                 for hi in (4.0, 6.0):
                     yield (s, hi)
+        # the tile is [0, maxTimestamp] however the tier's own minimum came about
+        for s in sets:
+            if s:
+                yield (s, 4.0, "omitted", None)
+                yield (s, 4.0, "omitted-min", None)
+                yield (s, 4.0, "given", None)
+                for lo in sorted({s[0][0], s[0][0] / 2, 0.0}):
+                    yield (s, 4.0, "given", lo)
+                    yield (s, None, "given", lo)
         # the size axis
         for n, layout, e in D.size_family(quick):
             ivs = tuple((a, b) for a, b, _ in e)
